@@ -98,7 +98,7 @@ pub fn explore(ctx: &Ctx) {
     ctx.rule("every grid point (lat, lon) and every point of the special lines is one case (4 constructions: elevation 0 plus three elevations); non-trivial = not within 0.1 deg of the Kaaba or its antipode, i.e. judged against the 3-D vector bearing");
     ctx.assume("reference uses the library's Kaaba constants 21.423333 N, 39.823333 E (the property's 21.4233/39.8233 rounded to 6 decimals) so that 1e-6 deg is meaningful");
     ctx.assume("spherical Earth, as the property's 'great circle' states");
-    let step = if quick { 0.5 } else { 0.125 };
+    let step = if quick { 0.25 } else { 0.125 };
     let nlat = (179.5 / step) as i64;
     let lat_rows: Vec<f64> = (0..=nlat).map(|i| -89.75 + i as f64 * step).collect();
     assert!(*lat_rows.last().unwrap() <= 89.75 + 1e-9);
